@@ -43,6 +43,7 @@ def instances(tier, seed):
         out.append(dict(name=f'enumerate:{g}', family='enumerate', graph=g, cost=2 ** min(len(e), 6)))
     out.append(dict(name='typing:chain4', family='typing', graph='chain4', cost=400))
     out.append(dict(name='typing:star4', family='typing', graph='star4', cost=300))
+    out.append(dict(name='typing:branched5:small-alphabet', family='typing', graph='branched5', alphabet=['C_3', 'C_R', 'O_3', 'C_1'], cost=200))
     out.append(dict(name='typing:chain5:small-alphabet', family='typing', graph='chain5', alphabet=['C_3', 'C_1', 'C_R', 'Zr8f4'], cost=200))
     out.append(dict(name='retype', family='retype', cost=20))
     out.append(dict(name='typekey:crosshair', family='crosshair', cost=10))
@@ -219,15 +220,20 @@ def body(ctx, p):
             res['angles'] = {canon(tuple(perm[int(x)] for x in t)): a.angle_type_coeffs[a.angle_types[j]] for j, t in enumerate(a.angles)}
             res['bond_ids'] = {canon(tuple(perm[int(x)] for x in t)): int(a.bond_types[j]) for j, t in enumerate(a.bonds)}
             res['angle_ids'] = {canon(tuple(perm[int(x)] for x in t)): int(a.angle_types[j]) for j, t in enumerate(a.angles)}
-        except Exception as ex_:
+        except KeyError as ex_:
             res['ba_error'] = str(ex_)[:60]
         try:
             RU.assign_dihedral_types(a, nm, exclude=ex)
+            res['dih_ids_valid'] = len(a.dihedral_types) == len(a.dihedrals) and all(0 <= int(t) < len(a.dihedral_type_coeffs) for t in a.dihedral_types)
+            if not res['dih_ids_valid']:
+                return res
             res['dihedrals'] = {canon(tuple(perm[int(x)] for x in t)): a.dihedral_type_coeffs[a.dihedral_types[j]] for j, t in enumerate(a.dihedrals)}
             res['dihedral_ids'] = {canon(tuple(perm[int(x)] for x in t)): int(a.dihedral_types[j]) for j, t in enumerate(a.dihedrals)}
             res['n_dih_types'] = len(a.dihedral_type_coeffs)
         except Exception as ex_:
-            res['d_error'] = str(ex_)[:40]
+            if "we don't know how to handle this dihedral" not in str(ex_):
+                raise
+            res['d_error'] = 'unsupported torsion typing'
         return res
 
     exclude = None if not excl_bit else {0, 1, 2}
@@ -235,6 +241,9 @@ def body(ctx, p):
     r1 = run(list(range(n))[::-1], True, exclude)
     r2 = run([(i + 1) % n for i in range(n)], False, exclude)
     ctx.observe('keys', sorted(r0.keys()))
+    ctx.require('every dihedral type id indexes a coefficient row', all(r.get('dih_ids_valid', True) for r in (r0, r1, r2)))
+    if not all(r.get('dih_ids_valid', True) for r in (r0, r1, r2)):
+        return
     ctx.require('identical outcome (coefficients per physical term, or the same error) under atom renaming and term-list reversal',
                 all({k: v for k, v in r.items() if not k.endswith('_ids') and k != 'n_dih_types'} == {k: v for k, v in r0.items() if not k.endswith('_ids') and k != 'n_dih_types'}
                     for r in (r1, r2)), detail=dict(r0=str(r0)[:300], r1=str(r1)[:300]))
@@ -309,5 +318,5 @@ SELFTESTS = [
          instance=dict(family='enumerate', graph='ring4')),
     dict(name='multiplicity-ignored-in-dihedral-type',
          mutate=[('mofun.rough_uff', "num_dihedrals_per_bond[typekey([atup[1], atup[2]])]) for atup in atoms.dihedrals]", "1) for atup in atoms.dihedrals]")],
-         instance=dict(family='typing', graph='star4')),
+         instance=dict(family='typing', graph='branched5', alphabet=['C_3', 'C_R', 'O_3', 'C_1'])),
 ]
